@@ -160,6 +160,24 @@ func runC13(r *mc.Run) {
 		})
 		add("values/cpusvn-blob="+name, p, world.SGXExtension(p), wantExact)
 	}
+	// CPUSVN octet strings that are not 16 bytes (a 16-byte value wrapped once more, a truncated / extended one):
+	// a wrongly sized octet string is an error, whatever its bytes look like
+	for _, cb := range []struct {
+		name string
+		b    []byte
+	}{
+		{"nested-looking-04-10+16", append([]byte{0x04, 0x10}, base.CPUSVN[:]...)}, {"nested-looking-04-0e+14", append([]byte{0x04, 0x0e}, base.CPUSVN[:14]...)},
+		{"15-bytes", base.CPUSVN[:15]}, {"17-bytes", append(append([]byte{}, base.CPUSVN[:]...), 0)}, {"32-bytes", append(append([]byte{}, base.CPUSVN[:]...), base.CPUSVN[:]...)}, {"empty", []byte{}},
+		{"18-zero-bytes", make([]byte, 18)}, {"nested-looking-30-10+16", append([]byte{0x30, 0x10}, base.CPUSVN[:]...)},
+	} {
+		p := base
+		p.CPUSVNBlob = cb.b
+		want := wantError
+		if len(cb.b) == 16 {
+			want = wantExact // sixteen octets are the value, whatever they look like
+		}
+		add("values/cpusvn-octet-string="+cb.name, p, world.SGXExtension(p), want)
+	}
 	// orders
 	top, tcb := world.SGXElems(base)
 	for _, perm := range permutations(5) {
